@@ -6,10 +6,12 @@ import (
 	"fmt"
 	"os"
 	"os/exec"
+	"os/signal"
 	"path/filepath"
 	"strings"
 	"sync"
 	"sync/atomic"
+	"syscall"
 	"time"
 
 	"github.com/whatap/golib/config/conffile"
@@ -96,6 +98,116 @@ func (h *harness) streamRace() {
 	}
 }
 
+// streamReset: getters hammered while the file is deleted / re-created and reloads run.  A key that has
+// the same value in the file and in the defaults must never read as the caller's default; a key that only
+// the defaults have must not either once the first reset has completed.
+func (h *harness) streamReset() {
+	dur := "1200"
+	if h.env.Thorough {
+		dur = "6000"
+	}
+	code, out, to := h.runChild("reset", 120*time.Second, "C18_ARG="+dur)
+	h.rep.Case("child reset "+dur+"ms", true)
+	h.rep.Count("child:reset")
+	for _, l := range strings.Split(out, "\n") {
+		if strings.HasPrefix(l, "STATS ") {
+			h.rep.Note("reset child: %s", l)
+		}
+	}
+	replay := map[string]interface{}{"mode": "reset", "duration_ms": dur, "exit_code": code, "output": vh.Clip(out, 1200),
+		"history": "file {enabled=true, transaction_enabled=true, other=x}; loop: delete file, reload (reset to defaults), re-create file, reload; 6 goroutines read enabled / transaction_enabled / net_udp_port"}
+	switch {
+	case to:
+		h.rep.Fail("property", "FileConfig.m:child-timeout", "getters/reset child hung (deadlock?)", replay)
+	case strings.Contains(out, "concurrent map") || strings.Contains(out, "DATA RACE"):
+		h.rep.Fail("property", "FileConfig.m:concurrent-map-access", "getters running while reload() resets the map to the defaults: "+firstLineWith(out, "concurrent map")+firstLineWith(out, "DATA RACE"), replay)
+	case strings.Contains(out, "EMPTY"):
+		h.rep.Fail("property", "FileConfig.m:empty-map-visible-during-reset",
+			"while reload() reset the configuration to the defaults (file disappeared) a getter saw neither the old nor the new map: "+firstLineWith(out, "EMPTY"), replay)
+	case code != 0 || !strings.Contains(out, "SURVIVED"):
+		h.rep.Fail("property", "FileConfig.m:child-crash", fmt.Sprintf("getters/reset child died (exit code %d)", code), replay)
+	}
+}
+
+// streamWriteFault: DefaultFileParser.Write / SetValues under injected write faults (RLIMIT_FSIZE with
+// SIGXFSZ ignored: write returns EFBIG after the limit; read-only directory when not root).
+func (h *harness) streamWriteFault() {
+	limits := []string{"0", "1", "64", "300", "1000000"}
+	if h.env.Thorough {
+		limits = append(limits, "7", "128", "1000", "1800", "1899")
+	}
+	for _, via := range []string{"write", "setvalues"} {
+		for _, lim := range limits {
+			h.oneWriteFault(via, "fsize:"+lim)
+		}
+		if os.Geteuid() != 0 {
+			h.oneWriteFault(via, "rodir")
+		} else {
+			h.rep.Count("child:write-fault:rodir-skipped-root")
+		}
+	}
+}
+
+func (h *harness) oneWriteFault(via, fault string) {
+	code, out, to := h.runChild("write-fault", 60*time.Second, "C18_ARG="+via+" "+fault)
+	h.rep.Case("child write-fault "+via+" "+fault, true)
+	h.rep.Count("child:write-fault")
+	res := firstLineWith(out, "RESULT ")
+	replay := map[string]interface{}{"mode": "write-fault", "via": via, "fault": fault, "exit_code": code, "output": vh.Clip(out, 800),
+		"how": "file of 40 lines (about 1900 bytes); the child lowers RLIMIT_FSIZE (SIGXFSZ ignored) / makes the directory read-only, then calls " + via + " with one changed key"}
+	switch {
+	case to:
+		h.rep.Fail("property", "write:fault-hangs", "write-back under a write fault hung", replay)
+	case res == "":
+		h.rep.Fail("property", "write:fault-crash", fmt.Sprintf("write-back under a write fault died (exit code %d)", code), replay)
+	case strings.Contains(res, "content=other"):
+		h.rep.Fail("property", "write:fault-leaves-partial-file",
+			"a failing write ("+fault+") during the write-back left the configuration file with neither the old nor the new complete content: "+res, replay)
+	case strings.Contains(res, "content=old") && strings.Contains(res, "err=false") && via == "write":
+		h.rep.Fail("property", "write:fault-not-reported", "the write-back failed ("+fault+"), the file keeps the old content, but Write returned nil: "+res, replay)
+	}
+	if via == "write" && strings.HasPrefix(fault, "fsize:") && res != "" {
+		// the fault model (Golib.Conf.FSFault.storeProtocol): a write that fails after n bytes
+		n := strings.TrimPrefix(fault, "fsize:")
+		wa := n
+		if n == "1000000" {
+			wa = "-"
+		}
+		f := strings.Fields(res)
+		var ic, ie string
+		for _, x := range f {
+			if strings.HasPrefix(x, "content=") {
+				ic = strings.SplitN(x, ":", 2)[0]
+			}
+			if strings.HasPrefix(x, "err=") {
+				ie = x
+			}
+		}
+		implView := ic + " " + ie
+		h.add(check{line: fmt.Sprintf("WP 1 0 %s 0 0 0 %s %s", wa, encStr("old content\n"), encStr("the new content\n")), want: implView,
+			canon: func(s string) string {
+				g := strings.Fields(s)
+				if len(g) < 2 {
+					return s
+				}
+				return g[0] + " " + g[1]
+			}, onDiff: func(got string) {
+				h.rep.Fail("correspondence", "write:fault-model", "the fault model and the implementation disagree on the outcome of a failing write",
+					map[string]interface{}{"fault": fault, "impl": res, "model": got})
+			}})
+		h.faultChecks++
+	}
+	if fault == "fsize:1000000" && !strings.Contains(res, "content=new") && res != "" {
+		h.rep.Fail("correspondence", "write:fault-injection", "with a file-size limit far above the file the write-back should simply succeed: "+res, replay)
+	}
+	if strings.Contains(res, "content=new") {
+		h.rep.Count("child:write-fault:new")
+	}
+	if strings.Contains(res, "content=old") {
+		h.rep.Count("child:write-fault:old")
+	}
+}
+
 func firstLineWith(out, sub string) string {
 	for _, l := range strings.Split(out, "\n") {
 		if strings.Contains(l, sub) {
@@ -135,6 +247,10 @@ func childMain(mode string) {
 		fmt.Println("SURVIVED")
 	case "race":
 		childRace(dir, path, arg)
+	case "reset":
+		childReset(dir, path, arg)
+	case "write-fault":
+		childWriteFault(dir, path, arg)
 	default:
 		fmt.Println("unknown child mode")
 		os.Exit(2)
@@ -210,4 +326,115 @@ func childRace(dir, path, arg string) {
 		fmt.Println("TORN", tornMsg.Load())
 	}
 	fmt.Println("SURVIVED")
+}
+
+func childReset(dir, path, arg string) {
+	ms := 1200
+	fmt.Sscan(arg, &ms)
+	// "enabled" and "transaction_enabled" are true in the file and in ApplyDefault; "net_udp_port" only in the defaults
+	text := "enabled=true\ntransaction_enabled=true\nother=x\n"
+	writeFile(path, text)
+	t := time.Unix(1_700_000_000, 0)
+	os.Chtimes(path, t, t)
+	c := conffile.NewForVerif(conffile.WithHomePath(dir))
+	var stop, resetDone atomic.Bool
+	var wg sync.WaitGroup
+	var reads, empty int64
+	var msg atomic.Value
+	for r := 0; r < 6; r++ {
+		wg.Add(1)
+		go func(r int) {
+			defer wg.Done()
+			for !stop.Load() {
+				after := resetDone.Load()
+				if !c.GetBoolean("enabled", false) {
+					atomic.AddInt64(&empty, 1)
+					msg.Store("GetBoolean(\"enabled\", false) = false although the file and the defaults both say true")
+				}
+				if c.GetValue("transaction_enabled") != "true" {
+					atomic.AddInt64(&empty, 1)
+					msg.Store("GetValue(\"transaction_enabled\") is not \"true\" although the file and the defaults both say true")
+				}
+				if after && c.GetInt("net_udp_port", -1) != 6600 {
+					atomic.AddInt64(&empty, 1)
+					msg.Store("GetInt(\"net_udp_port\", -1) = -1 after the defaults had been applied")
+				}
+				atomic.AddInt64(&reads, 3)
+			}
+		}(r)
+	}
+	deadline := time.Now().Add(time.Duration(ms) * time.Millisecond)
+	resets := 0
+	for time.Now().Before(deadline) {
+		os.Remove(path)
+		c.ReloadNowForVerif() // file disappeared: reset to the defaults
+		resetDone.Store(true)
+		resets++
+		writeFile(path, text)
+		t = t.Add(1500 * time.Millisecond)
+		os.Chtimes(path, t, t)
+		c.ReloadNowForVerif()
+	}
+	stop.Store(true)
+	wg.Wait()
+	fmt.Printf("STATS resets=%d reads=%d empty=%d\n", resets, reads, empty)
+	if empty > 0 {
+		fmt.Println("EMPTY", msg.Load())
+	}
+	fmt.Println("SURVIVED")
+}
+
+func childWriteFault(dir, path, arg string) {
+	f := strings.Fields(arg)
+	if len(f) != 2 {
+		fmt.Println("bad arg")
+		os.Exit(2)
+	}
+	via, fault := f[0], f[1]
+	var b strings.Builder
+	for i := 0; i < 40; i++ {
+		fmt.Fprintf(&b, "key_%02d=value number %d with padding padding padding\n", i, i)
+	}
+	old := b.String()
+	writeFile(path, old)
+	newText := strings.Replace(old, "key_07=value number 7 ", "key_07=changed value 7 ", 1)
+	c := conffile.NewForVerif(conffile.WithHomePath(dir))
+	parser := conffile.NewDefaultFileParser()
+	// inject the fault
+	switch {
+	case strings.HasPrefix(fault, "fsize:"):
+		var lim uint64
+		fmt.Sscan(fault[6:], &lim)
+		signal.Ignore(syscall.SIGXFSZ)
+		if err := syscall.Setrlimit(syscall.RLIMIT_FSIZE, &syscall.Rlimit{Cur: lim, Max: lim}); err != nil {
+			fmt.Println("RESULT setrlimit-failed", err)
+			return
+		}
+	case fault == "rodir":
+		os.Chmod(dir, 0o555)
+		defer os.Chmod(dir, 0o755)
+	}
+	var err error
+	kvs := map[string]string{"key_07": "changed value 7 with padding padding padding"}
+	if via == "write" {
+		m, _, _ := libRead(old)
+		m["key_07"] = kvs["key_07"]
+		err = parser.Write(path, &m)
+	} else {
+		c.SetValues(&kvs)
+	}
+	got, rerr := os.ReadFile(path)
+	content := "other"
+	switch {
+	case rerr != nil:
+		content = "other:missing"
+	case string(got) == old:
+		content = "old"
+	case string(got) == newText:
+		content = "new"
+	default:
+		content = fmt.Sprintf("other:%d-bytes(old %d, new %d)", len(got), len(old), len(newText))
+	}
+	ents, _ := os.ReadDir(dir)
+	fmt.Printf("RESULT via=%s fault=%s err=%v content=%s entries=%d\n", via, fault, err != nil, content, len(ents))
 }
